@@ -8,6 +8,7 @@ import (
 
 func TestReplay(t *testing.T) {
 	verif.ReplayMain(map[string]func(){
+		"HarnessCancelVsCall":     HarnessCancelVsCall,
 		"HarnessClientWriters":    HarnessClientWriters,
 		"HarnessCloseDuringWrite": HarnessCloseDuringWrite,
 		"HarnessServerWriters":    HarnessServerWriters,
